@@ -43,6 +43,8 @@ type recContractor struct {
 	e     *sim.Env
 	calls []contractorCall
 	yield func(string)
+	// gate, if set, brackets DebitAccount (C18: blocking handlers)
+	gate func(method string) func()
 }
 
 func (c *recContractor) rec(call contractorCall) {
@@ -84,6 +86,9 @@ func (c *recContractor) CreditPoolsWithContract(d []proto4.AccountDeposit, id ty
 }
 
 func (c *recContractor) DebitAccount(a proto4.Account, u proto4.Usage) error {
+	if c.gate != nil {
+		defer c.gate("DebitAccount")()
+	}
 	err := c.EphemeralContractor.DebitAccount(a, u)
 	c.rec(contractorCall{method: "DebitAccount", account: a, usage: u, err: err})
 	return err
@@ -113,15 +118,23 @@ type recSectors struct {
 	*testutil.EphemeralSectorStore
 	e     *sim.Env
 	calls []sectorCall
+	// gate, if set, brackets every call (C18: blocking handlers)
+	gate func(method string) func()
 }
 
 func (s *recSectors) ReadSector(root types.Hash256, off, l uint64) ([]byte, []types.Hash256, error) {
+	if s.gate != nil {
+		defer s.gate("ReadSector")()
+	}
 	b, p, err := s.EphemeralSectorStore.ReadSector(root, off, l)
 	s.calls = append(s.calls, sectorCall{seq: s.e.Step(), method: "ReadSector", root: root, err: err})
 	return b, p, err
 }
 
 func (s *recSectors) StoreSector(root types.Hash256, data *[proto4.SectorSize]byte, sub []types.Hash256, exp uint64) error {
+	if s.gate != nil {
+		defer s.gate("StoreSector")()
+	}
 	err := s.EphemeralSectorStore.StoreSector(root, data, sub, exp)
 	s.calls = append(s.calls, sectorCall{seq: s.e.Step(), method: "StoreSector", root: root, err: err})
 	return err
